@@ -1,5 +1,6 @@
 import Cel.Drv.Util
 import Cel.Model.Runtime
+import Cel.Model.RuntimeLimit
 /-!
   Line protocol for C05: one line = one whole API history, the answer = the observations of every
   operation joined by `|`.
@@ -11,6 +12,9 @@ import Cel.Model.Runtime
     G <env> <ast>               program
     V <prog> <n> name val …     evaluate  names are `@text`; values `i:5 s:abc b:1 m:k=1,j=2`
     expr (prefix):  lit n | id x | did x | dot <e> k | add <e> <e>
+
+    LIM <pol> <initial> k …     the recursion limit after every operation: pol = `n` never | `a<n>` always n | `I<n>`/`C<n>` only that
+                                runner class; one token per operation: `I`/`C` = Environment of that class, `o` = any other operation
 -/
 namespace Cel.Drv.C05
 open Cel Cel.Drv Cel.Runtime
@@ -104,7 +108,25 @@ def showObs : Obs → String
   | .err => "err"
   | .value s => "value " ++ s
 
+def parseLimitPolicy (s : String) : Option LimitPolicy :=
+  match s.toList with
+  | ['n'] => some .never
+  | 'a' :: r => (String.ofList r).toNat?.map .always
+  | 'I' :: r => (String.ofList r).toNat?.map (.onlyKind .I)
+  | 'C' :: r => (String.ofList r).toNat?.map (.onlyKind .C)
+  | _ => none
+
+def limitOp : String → Option Op
+  | "I" => some (.mkEnv .I [] none)
+  | "C" => some (.mkEnv .C [] none)
+  | "o" => some .resetParser
+  | _ => none
+
 def handle : Handler
+  | "LIM" :: pol :: l0 :: rest =>
+    match parseLimitPolicy pol, l0.toNat?, rest.mapM limitOp with
+    | some pol, some l0, some ops => String.intercalate "|" ((limitTrace pol l0 ops).map toString)
+    | _, _, _ => "bad-op"
   | cfg :: rest =>
     match parseCfg cfg, (splitOps rest []).mapM parseOp with
     | some cfg, some ops => String.intercalate "|" ((trace cfg World.init ops).map showObs)
